@@ -96,7 +96,10 @@ def build_cases(seed: int, deep: bool, tag: str, n_rand: int, prop: str = "") ->
     for cl in G.malformed():
         cases.append((f"m{len(cases)}", cl))
     for _ in range(n_rand):
-        cases.append((f"r{len(cases)}", G.rand_closure(rng)))
+        cl = G.rand_closure(rng)
+        if rng.random() < 0.3:      # the same closure with its files spread over sub-directories
+            cl = G.relocate(cl, {fn: rng.choice(["", "", "sub", "sub/deep", "lib"]) for fn in cl["files"]})
+        cases.append((f"r{len(cases)}", cl))
     return cases
 
 
